@@ -9,6 +9,7 @@ package main
 
 import (
 	"fmt"
+	"os"
 	"go/ast"
 	"go/constant"
 	"go/parser"
@@ -833,6 +834,33 @@ func (c *ExprCtx) call(x *ast.CallExpr) TV {
 			return TV{V: VOpaque{T: c.w.foldInt(constBV(a.C, 64), 64)}}
 		}
 		return TV{V: VOpaque{T: c.w.fold(c.st, a.V)}}
+	case "binding":
+		// binding(f, k): the k-th captured value of a known closure / bound method value
+		a := c.eval(x.Args[0])
+		fv, ok := a.V.(VFunc)
+		k := c.eval(x.Args[1])
+		if !ok || k.C == nil {
+			fail("binding: not a known function value")
+		}
+		ki, _ := constant.Int64Val(constant.ToInt(k.C))
+		if int(ki) >= len(fv.Bindings) {
+			fail("binding: index out of range")
+		}
+		return TV{V: VOpaque{T: c.w.fold(c.st, fv.Bindings[ki])}}
+	case "tuple":
+		// tuple(a, b, ...): the fold of a struct value with these fields
+		t := "u_nil"
+		for i := len(x.Args) - 1; i >= 0; i-- {
+			a := c.eval(x.Args[i])
+			var ft string
+			if a.C != nil {
+				ft = c.w.foldInt(constBV(a.C, 64), 64)
+			} else {
+				ft = c.w.fold(c.st, a.V)
+			}
+			t = app("u_cons", ft, t)
+		}
+		return TV{V: VOpaque{T: t}}
 	case "ud":
 		// ud(x): fold of x, through one pointer (an encoder encodes the pointee)
 		a := c.eval(x.Args[0])
@@ -865,6 +893,16 @@ func (c *ExprCtx) call(x *ast.CallExpr) TV {
 			fail("dyntype needs a string literal")
 		}
 		tn := constant.StringVal(constant.MakeFromLiteral(lit.Value, lit.Kind, 0))
+		if iv.Concrete != nil && !hasTypeParam(iv.Concrete, 0) {
+			got := types.TypeString(iv.Concrete, func(p *types.Package) string { return p.Name() })
+			if os.Getenv("GOVC_DEBUG") != "" {
+				fmt.Fprintf(os.Stderr, "dyntype: %s\n", got)
+			}
+			return TV{C: constant.MakeBool(strings.ReplaceAll(got, " ", "") == strings.ReplaceAll(tn, " ", ""))}
+		}
+		if iv.U == "nil_iface" {
+			return TV{C: constant.MakeBool(false)}
+		}
 		f := c.w.st.declare("dyn_type", []string{sortU}, sortU)
 		tc := c.w.st.declare("type_"+sanitize(tn), nil, sortU)
 		return TV{V: VBool{T: mkEq(app(f, iv.U), tc)}, T: boolT}
